@@ -58,6 +58,18 @@ Encode(m) == LET fe == FirstEnds(m)
                  nct == Cardinality({ k \in 1..Len(fe) : fe[k][2] # 0 })
              IN TLCEval(Header(m, nct) \o Flat([k \in 1..Len(m.atoms) |-> AtomRec(m.atoms[k])], 1) \o Pairs12(Conn(m), 1)
                         \o ToBytes(Bits3(fe, 1), 1) \o CtBlock(fe))
+\* the earlier layout (header byte 0), still accepted by the decoder: everything as above except the bond-order block, which holds
+\* five orders per 16 bits (one zero bit, then 5 x 3 bits), the last group zero-padded
+RECURSIVE Groups5(_, _)
+Groups5(q, k) == IF k > Len(q) THEN <<>>
+                 ELSE LET o(j) == IF k + j <= Len(q) THEN q[k + j][1] ELSE 0
+                          w == o(0) * 4096 + o(1) * 512 + o(2) * 64 + o(3) * 8 + o(4)
+                      IN <<w \div 256, w % 256>> \o Groups5(q, k + 5)
+EncodeV0(m) == LET fe == FirstEnds(m)
+                   nct == Cardinality({ k \in 1..Len(fe) : fe[k][2] # 0 })
+                   h == Header(m, nct)
+               IN TLCEval(<<0, h[2], h[3], h[4]>> \o Flat([k \in 1..Len(m.atoms) |-> AtomRec(m.atoms[k])], 1) \o Pairs12(Conn(m), 1)
+                          \o Groups5(fe, 1) \o CtBlock(fe))
 Frame(r, a, p, packs) == <<1, r, a, p>> \o Flat(packs, 1)
 \* limits of the format
 Representable(m) == /\ Len(m.atoms) \in 1..4095
